@@ -3,7 +3,7 @@
    deviation classes, the implementation model's answer (projected) and resulting file system equal
    the specification's.  Built on WalkBridge / WalkSym. *)
 From Avfs Require Import Base PathModel PathSpec PathProofs PathCleanProofs PathIterProofs.
-From Avfs Require Import MemFS MemFile World Posix WalkBridge WalkSym WalkBudget WalkReadlink.
+From Avfs Require Import MemFS MemFile World Posix WalkBridge WalkSym WalkBudget WalkReadlink WalkRel.
 
 (* ---- facts about the kernel walk's results ------------------------------------------------------- *)
 Lemma kwalk_final : forall f h u root follow cur (work : list str) cnt md K,
@@ -84,23 +84,31 @@ Record step_hyps (s : fsys) (sv : sview) : Prop := {
 }.
 
 (* the walk to "/c1/.../cn" is inside the covered domain: proper names, neither model runs out of its fuel
-   (WalkBudget.v gives size conditions for that), and - Lstat mode only - not the corner [lstat_corner] of C04
-   (a final link reached after exactly 40 links; vacuous for the following modes) *)
+   (WalkBudget.v gives size conditions for that); ELOOP outcomes are covered *)
 Definition path_ok (s : fsys) (sv : sview) (slm : slmode) (cs : list str) : Prop :=
   Forall good_comp cs /\
   klookup s sv false (follow_of slm) (abs_path cs) <> WErr EFUEL /\
-  sr_err (search_node s (sv_view sv) (abs_path cs) slm) <> EFuel /\
-  ~ lstat_corner (f_heap s) slm (search_node s (sv_view sv) (abs_path cs) slm)
-                 (klookup s sv false (follow_of slm) (abs_path cs)).
+  sr_err (search_node s (sv_view sv) (abs_path cs) slm) <> EFuel.
 
 Lemma resolve (s : fsys) (sv : sview) (slm : slmode) (cs : list str) :
   step_hyps s sv -> path_ok s sv slm cs ->
   walk_rel (f_heap s) (v_user (sv_view sv)) (v_root (sv_view sv)) (precise_of slm)
     (search_node s (sv_view sv) (abs_path cs) slm) (klookup s sv false (follow_of slm) (abs_path cs)).
 Proof.
-  intros [Hos Hadm Hwf Hlc Hrd] (Hg & Hk1 & Hnf & Hnc).
-  destruct (sym_bridge_lookup s sv slm cs Hos Hwf Hlc Hrd Hg Hk1 Hnf) as [B|B]; [exact B|contradiction].
+  intros [Hos Hadm Hwf Hlc Hrd] (Hg & Hk1 & Hnf).
+  exact (sym_bridge_lookup s sv slm cs Hos Hwf Hlc Hrd Hg Hk1 Hnf).
 Qed.
+
+(* a path - of any form - on which the two walks are related and the implementation model did not run out of fuel;
+   [resolved_abs]: clean absolute paths in [path_ok]; WalkRel.v: clean relative paths *)
+Definition resolved (s : fsys) (sv : sview) (slm : slmode) (p : str) : Prop :=
+  walk_rel (f_heap s) (v_user (sv_view sv)) (v_root (sv_view sv)) (precise_of slm)
+    (search_node s (sv_view sv) p slm) (klookup s sv false (follow_of slm) p)
+  /\ sr_err (search_node s (sv_view sv) p slm) <> EFuel.
+
+Lemma resolved_abs (s : fsys) (sv : sview) (slm : slmode) (cs : list str) :
+  step_hyps s sv -> path_ok s sv slm cs -> resolved s sv slm (abs_path cs).
+Proof. intros H Hp. split; [exact (resolve s sv slm cs H Hp)|]. destruct Hp as (_ & _ & Hnf). exact Hnf. Qed.
 
 Lemma werr_cases (e : ekind) (k : N) :
   walk_err_rel e k -> e <> EFuel ->
@@ -138,16 +146,16 @@ Lemma k_info_spec (h : heap) (n : nat) (nd : node) (name : str) :
 Proof. intros H. unfold k_info. rewrite H. destruct nd; reflexivity. Qed.
 
 (* ---- Stat / Lstat ------------------------------------------------------------------------------------- *)
-Theorem step_stat (s : fsys) (sv : sview) (slm : slmode) (cs : list str) :
-  step_hyps s sv -> path_ok s sv slm cs ->
-  stat_sim (proj_res Linux (stat_gen slm s (sv_view sv) (abs_path cs)))
-           (k_stat (follow_of slm) s sv (abs_path cs)).
+Theorem step_stat_p (s : fsys) (sv : sview) (slm : slmode) (p : str) :
+  step_hyps s sv -> resolved s sv slm p ->
+  stat_sim (proj_res Linux (stat_gen slm s (sv_view sv) p))
+           (k_stat (follow_of slm) s sv p).
 Proof.
-  intros H Hp. pose proof (resolve s sv slm cs H Hp) as R. destruct Hp as (_ & _ & Hnf & _).
+  intros H (R & Hnf).
   unfold stat_gen, k_stat.
-  destruct (klookup s sv false (follow_of slm) (abs_path cs)) as [par kind name n|par name md| |e]; cbn [walk_rel] in R.
+  destruct (klookup s sv false (follow_of slm) p) as [par kind name n|par name md| |e]; cbn [walk_rel] in R.
   - destruct R as (R1 & R2 & R3 & _). rewrite R2, R1. cbn [is_file_exists negb].
-    destruct (get (f_heap s) n) as [nd|] eqn:Hg; [|congruence]. right. exists nd, (base (v_os (sv_view sv)) (abs_path cs)).
+    destruct (get (f_heap s) n) as [nd|] eqn:Hg; [|congruence]. right. exists nd, (base (v_os (sv_view sv)) p).
     split; [reflexivity|]. rewrite (k_info_spec _ _ _ _ Hg). reflexivity.
   - destruct R as (R1 & R2 & _). rewrite R2, R1. left. reflexivity.
   - destruct R.
@@ -155,15 +163,21 @@ Proof.
     left. destruct (sr_child _); destruct Hc as [->|[->|[->| ->]]]; reflexivity.
 Qed.
 
+Theorem step_stat (s : fsys) (sv : sview) (slm : slmode) (cs : list str) :
+  step_hyps s sv -> path_ok s sv slm cs ->
+  stat_sim (proj_res Linux (stat_gen slm s (sv_view sv) (abs_path cs)))
+           (k_stat (follow_of slm) s sv (abs_path cs)).
+Proof. intros H Hp. exact (step_stat_p s sv slm (abs_path cs) H (resolved_abs _ _ _ _ H Hp)). Qed.
+
 (* ---- Readlink ------------------------------------------------------------------------------------------ *)
-Theorem step_readlink (s : fsys) (sv : sview) (cs : list str) :
-  step_hyps s sv -> path_ok s sv SlLstat cs ->
-  proj_res Linux (readlink s (sv_view sv) (abs_path cs)) = k_readlink s sv (abs_path cs).
+Theorem step_readlink_p (s : fsys) (sv : sview) (p : str) :
+  step_hyps s sv -> resolved s sv SlLstat p ->
+  proj_res Linux (readlink s (sv_view sv) p) = k_readlink s sv p.
 Proof.
-  intros H Hp. pose proof (resolve s sv SlLstat cs H Hp) as R. destruct Hp as (_ & _ & Hnf & _).
+  intros H (R & Hnf).
   unfold readlink, k_readlink. change (follow_of SlLstat) with false in R.
   unfold win. rewrite (sh_os _ _ H). cbn [ostype_eqb].
-  destruct (klookup s sv false false (abs_path cs)) as [par kind name n|par name md| |e]; cbn [walk_rel] in R.
+  destruct (klookup s sv false false p) as [par kind name n|par name md| |e]; cbn [walk_rel] in R.
   - destruct R as (R1 & R2 & R3 & _). rewrite R2, R1. cbn [is_file_exists negb].
     destruct (get (f_heap s) n) as [[ch m|dt k i m|t m]|]; reflexivity.
   - destruct R as (R1 & R2 & _). rewrite R1. reflexivity.
@@ -172,14 +186,19 @@ Proof.
     destruct Hc as [->|[->|[->| ->]]]; reflexivity.
 Qed.
 
+Theorem step_readlink (s : fsys) (sv : sview) (cs : list str) :
+  step_hyps s sv -> path_ok s sv SlLstat cs ->
+  proj_res Linux (readlink s (sv_view sv) (abs_path cs)) = k_readlink s sv (abs_path cs).
+Proof. intros H Hp. exact (step_readlink_p s sv (abs_path cs) H (resolved_abs _ _ _ _ H Hp)). Qed.
+
 (* ---- Chtimes (the times themselves are not modelled) ---------------------------------------------------- *)
-Theorem step_chtimes (s : fsys) (sv : sview) (cs : list str) :
-  step_hyps s sv -> path_ok s sv SlEval cs ->
-  proj_res Linux (chtimes s (sv_view sv) (abs_path cs)) = k_utimes s sv (abs_path cs).
+Theorem step_chtimes_p (s : fsys) (sv : sview) (p : str) :
+  step_hyps s sv -> resolved s sv SlEval p ->
+  proj_res Linux (chtimes s (sv_view sv) p) = k_utimes s sv p.
 Proof.
-  intros H Hp. pose proof (resolve s sv SlEval cs H Hp) as R. destruct Hp as (_ & _ & Hnf & _).
+  intros H (R & Hnf).
   unfold chtimes, k_utimes. change (follow_of SlEval) with true in R.
-  destruct (klookup s sv false true (abs_path cs)) as [par kind name n|par name md| |e]; cbn [walk_rel] in R.
+  destruct (klookup s sv false true p) as [par kind name n|par name md| |e]; cbn [walk_rel] in R.
   - destruct R as (R1 & R2 & R3 & _). rewrite R2, R1. cbn [is_file_exists negb].
     unfold owner_or_root, set_mode_ok. rewrite (sh_admin _ _ H). cbn [orb].
     destruct (get (f_heap s) n); [rewrite orb_true_r; reflexivity|congruence].
@@ -188,6 +207,11 @@ Proof.
   - destruct R as (R1 & _). destruct (werr_cases _ _ R1 Hnf) as (Hc & ->).
     destruct (sr_child _); destruct Hc as [->|[->|[->| ->]]]; reflexivity.
 Qed.
+
+Theorem step_chtimes (s : fsys) (sv : sview) (cs : list str) :
+  step_hyps s sv -> path_ok s sv SlEval cs ->
+  proj_res Linux (chtimes s (sv_view sv) (abs_path cs)) = k_utimes s sv (abs_path cs).
+Proof. intros H Hp. exact (step_chtimes_p s sv (abs_path cs) H (resolved_abs _ _ _ _ H Hp)). Qed.
 
 (* ---- a following walk never ends on a symbolic link -------------------------------------------------- *)
 Lemma search_follow_nosym (h : heap) (v : view) (slm : slmode) :
@@ -209,16 +233,15 @@ Proof.
       destruct (check_permission m OpenLookup (v_user v)); [|subst r; discriminate He].
       apply (IH vol n pi1 sl saved r c); auto. unfold node_is_dir. rewrite Hgn. reflexivity.
     + destruct (pi_is_last pi1); subst r; [cbn in Hc; injection Hc as <-; congruence|cbn in He; destruct (v_os v); discriminate He].
-    + destruct (Nat.ltb slCountMax (S sl)); [subst r; discriminate He|].
-      rewrite Hslm, andb_false_r in Hr.
+    + rewrite Hslm, andb_false_r in Hr. destruct (Nat.ltb slCountMax (S sl)); [subst r; discriminate He|].
       destruct (pi_replace_part (v_os v) pi1 t) as [reset pi2].
       eapply (IH vol (if reset then vol else p0)); eauto. destruct reset; assumption.
 Qed.
 
-Lemma resolve_nosym (s : fsys) (sv : sview) (slm : slmode) (cs : list str) (c : nat) :
+Lemma resolve_nosym_p (s : fsys) (sv : sview) (slm : slmode) (p : str) (c : nat) :
   step_hyps s sv -> slmode_eqb slm SlLstat = false ->
-  sr_err (search_node s (sv_view sv) (abs_path cs) slm) = EFileExists ->
-  sr_child (search_node s (sv_view sv) (abs_path cs) slm) = Some c ->
+  sr_err (search_node s (sv_view sv) p slm) = EFileExists ->
+  sr_child (search_node s (sv_view sv) p slm) = Some c ->
   forall t m, get (f_heap s) c <> Some (NSym t m).
 Proof.
   intros H Hslm He Hc. rewrite (search_node_linux s (sv_view sv) _ slm (sh_os _ _ H)) in He, Hc.
@@ -226,18 +249,25 @@ Proof.
            (sh_root _ _ H) (sh_root _ _ H) eq_refl He Hc).
 Qed.
 
+Lemma resolve_nosym (s : fsys) (sv : sview) (slm : slmode) (cs : list str) (c : nat) :
+  step_hyps s sv -> slmode_eqb slm SlLstat = false ->
+  sr_err (search_node s (sv_view sv) (abs_path cs) slm) = EFileExists ->
+  sr_child (search_node s (sv_view sv) (abs_path cs) slm) = Some c ->
+  forall t m, get (f_heap s) c <> Some (NSym t m).
+Proof. exact (resolve_nosym_p s sv slm (abs_path cs) c). Qed.
+
 (* ---- Chmod --------------------------------------------------------------------------------------------- *)
-Theorem step_chmod (s : fsys) (sv : sview) (cs : list str) (mode : N) :
-  step_hyps s sv -> path_ok s sv SlEval cs ->
-  (fst (chmod s (sv_view sv) (abs_path cs) mode), proj_res Linux (snd (chmod s (sv_view sv) (abs_path cs) mode)))
-  = k_chmod s sv (abs_path cs) mode.
+Theorem step_chmod_p (s : fsys) (sv : sview) (p : str) (mode : N) :
+  step_hyps s sv -> resolved s sv SlEval p ->
+  (fst (chmod s (sv_view sv) p mode), proj_res Linux (snd (chmod s (sv_view sv) p mode)))
+  = k_chmod s sv p mode.
 Proof.
-  intros H Hp. pose proof (resolve s sv SlEval cs H Hp) as R. destruct Hp as (_ & _ & Hnf & _).
-  pose proof (resolve_nosym s sv SlEval cs) as Hns.
+  intros H (R & Hnf).
+  pose proof (resolve_nosym_p s sv SlEval p) as Hns.
   unfold chmod, k_chmod. change (follow_of SlEval) with true in R.
-  destruct (klookup s sv false true (abs_path cs)) as [par kind name n|par name md| |e]; cbn [walk_rel] in R.
+  destruct (klookup s sv false true p) as [par kind name n|par name md| |e]; cbn [walk_rel] in R.
   - destruct R as (R1 & R2 & R3 & _). specialize (Hns n H eq_refl R1 R2). rewrite R2, R1. cbn [is_file_exists negb].
-    unfold owner_or_root, set_mode_ok. rewrite (sh_admin _ _ H). cbn [orb negb andb].
+    unfold owner_or_root, set_mode_ok, chmod_mode. rewrite (sh_admin _ _ H). cbn [orb negb andb].
     destruct (get (f_heap s) n) as [[ch m|dt k i m|t m]|]; try congruence;
       rewrite orb_true_r; reflexivity.
   - destruct R as (R1 & R2 & _). rewrite R2, R1. reflexivity.
@@ -246,17 +276,23 @@ Proof.
     destruct (sr_child _); destruct Hc as [->|[->|[->| ->]]]; reflexivity.
 Qed.
 
-(* ---- Truncate ------------------------------------------------------------------------------------------ *)
-Theorem step_truncate (s : fsys) (sv : sview) (cs : list str) (size : Z) :
+Theorem step_chmod (s : fsys) (sv : sview) (cs : list str) (mode : N) :
   step_hyps s sv -> path_ok s sv SlEval cs ->
-  (fst (truncate s (sv_view sv) (abs_path cs) size), proj_res Linux (snd (truncate s (sv_view sv) (abs_path cs) size)))
-  = k_truncate s sv (abs_path cs) size.
+  (fst (chmod s (sv_view sv) (abs_path cs) mode), proj_res Linux (snd (chmod s (sv_view sv) (abs_path cs) mode)))
+  = k_chmod s sv (abs_path cs) mode.
+Proof. intros H Hp. exact (step_chmod_p s sv (abs_path cs) mode H (resolved_abs _ _ _ _ H Hp)). Qed.
+
+(* ---- Truncate ------------------------------------------------------------------------------------------ *)
+Theorem step_truncate_p (s : fsys) (sv : sview) (p : str) (size : Z) :
+  step_hyps s sv -> resolved s sv SlEval p ->
+  (fst (truncate s (sv_view sv) p size), proj_res Linux (snd (truncate s (sv_view sv) p size)))
+  = k_truncate s sv p size.
 Proof.
-  intros H Hp. pose proof (resolve s sv SlEval cs H Hp) as R. destruct Hp as (_ & _ & Hnf & _).
+  intros H (R & Hnf).
   unfold truncate, k_truncate, win. rewrite (sh_os _ _ H). cbn [ostype_eqb negb]. rewrite andb_true_r.
   destruct (Z.ltb size 0) eqn:Hsz; [reflexivity|].
   change (follow_of SlEval) with true in R.
-  destruct (klookup s sv false true (abs_path cs)) as [par kind name n|par name md| |e]; cbn [walk_rel] in R.
+  destruct (klookup s sv false true p) as [par kind name n|par name md| |e]; cbn [walk_rel] in R.
   - destruct R as (R1 & R2 & R3 & _). rewrite R2, R1. cbn [is_file_exists negb].
     destruct (get (f_heap s) n) as [[ch m|dt k i m|t m]|] eqn:Hg; [reflexivity| |reflexivity|reflexivity].
     rewrite (admin_kperm s sv n 2 H) by congruence.
@@ -266,6 +302,12 @@ Proof.
   - destruct R as (R1 & _). destruct (werr_cases _ _ R1 Hnf) as (Hc & ->).
     destruct Hc as [->|[->|[->| ->]]]; reflexivity.
 Qed.
+
+Theorem step_truncate (s : fsys) (sv : sview) (cs : list str) (size : Z) :
+  step_hyps s sv -> path_ok s sv SlEval cs ->
+  (fst (truncate s (sv_view sv) (abs_path cs) size), proj_res Linux (snd (truncate s (sv_view sv) (abs_path cs) size)))
+  = k_truncate s sv (abs_path cs) size.
+Proof. intros H Hp. exact (step_truncate_p s sv (abs_path cs) size H (resolved_abs _ _ _ _ H Hp)). Qed.
 
 (* ---- parent-mode lookups of the specification, on a path ending in a proper name ----------------------- *)
 Lemma klookup_pm (s : fsys) (sv : sview) (follow : bool) (w : list str) (cl : str) :
@@ -338,7 +380,7 @@ Theorem step_mkdir (s : fsys) (sv : sview) (w : list str) (cl : str) (perm : N) 
   (fst (mkdir s (sv_view sv) p perm), proj_res Linux (snd (mkdir s (sv_view sv) p perm))) = k_mkdir s sv p perm.
 Proof.
   intros H Hp Hsg p. pose proof (resolve s sv SlLstat (w ++ [cl]) H Hp) as R.
-  destruct Hp as (Hg & Hk1 & Hnf & _). change (follow_of SlLstat) with false in R, Hk1. change (precise_of SlLstat) with true in R.
+  destruct Hp as (Hg & Hk1 & Hnf). change (follow_of SlLstat) with false in R, Hk1. change (precise_of SlLstat) with true in R.
   destruct (klookup_pm s sv false w cl Hg Hk1) as (Hkn & Hkg & Hpm).
   unfold p. rewrite (mkdir_nonempty s (sv_view sv) _ perm (abs_path_nonempty _)). cbv zeta.
   unfold k_mkdir. rewrite Hpm. unfold no_setgid_parent in Hsg.
@@ -367,7 +409,7 @@ Theorem step_symlink (s : fsys) (sv : sview) (w : list str) (cl : str) (t : str)
   = k_symlink s sv (clean Linux t) p.
 Proof.
   intros H Hp Hsg p. pose proof (resolve s sv SlLstat (w ++ [cl]) H Hp) as R.
-  destruct Hp as (Hg & Hk1 & Hnf & _). change (follow_of SlLstat) with false in R, Hk1. change (precise_of SlLstat) with true in R.
+  destruct Hp as (Hg & Hk1 & Hnf). change (follow_of SlLstat) with false in R, Hk1. change (precise_of SlLstat) with true in R.
   destruct (klookup_pm s sv false w cl Hg Hk1) as (Hkn & Hkg & Hpm).
   unfold p, symlink, k_symlink. rewrite Hpm. unfold no_setgid_parent in Hsg.
   pose proof (klookup_final s sv false (w ++ [cl]) Hg) as Hfin.
@@ -446,7 +488,7 @@ Theorem step_remove (s : fsys) (sv : sview) (w : list str) (cl : str) :
   (fst (remove s (sv_view sv) p), proj_res Linux (snd (remove s (sv_view sv) p))) = go_remove s sv p.
 Proof.
   intros H Hp Hss p. pose proof (resolve s sv SlLstat (w ++ [cl]) H Hp) as R.
-  destruct Hp as (Hg & Hk1 & Hnf & _). change (follow_of SlLstat) with false in R, Hk1. change (precise_of SlLstat) with true in R.
+  destruct Hp as (Hg & Hk1 & Hnf). change (follow_of SlLstat) with false in R, Hk1. change (precise_of SlLstat) with true in R.
   destruct (klookup_pm s sv false w cl Hg Hk1) as (Hkn & Hkg & Hpm).
   unfold p, remove, go_remove, k_unlink, k_rmdir. rewrite Hpm.
   pose proof (klookup_final s sv false (w ++ [cl]) Hg) as Hfin.
@@ -490,7 +532,7 @@ Theorem step_link (s : fsys) (sv : sview) (co w : list str) (cl : str) :
 Proof.
   intros H Hpo Hp Hns o p.
   pose proof (resolve s sv SlLstat co H Hpo) as Ro. pose proof (resolve s sv SlLstat (w ++ [cl]) H Hp) as R.
-  destruct Hpo as (Hgo & _ & Hnfo & _). destruct Hp as (Hg & Hk1 & Hnf & _).
+  destruct Hpo as (Hgo & _ & Hnfo). destruct Hp as (Hg & Hk1 & Hnf).
   change (follow_of SlLstat) with false in Ro, R, Hk1. change (precise_of SlLstat) with true in Ro, R.
   destruct (klookup_pm s sv false w cl Hg Hk1) as (Hkn & Hkg & Hpm).
   unfold o, p, link, k_link, win. rewrite (sh_os _ _ H). cbn [ostype_eqb]. unfold not_symlink in Hns.
@@ -540,7 +582,7 @@ Theorem step_chown (s : fsys) (sv : sview) (slm : slmode) (cs : list str) (uid g
    proj_res Linux (snd (chown_gen slm s (sv_view sv) (abs_path cs) uid gid)))
   = k_chown (follow_of slm) s sv (abs_path cs) uid gid.
 Proof.
-  intros H Hp Hns. pose proof (resolve s sv slm cs H Hp) as R. destruct Hp as (_ & _ & Hnf & _).
+  intros H Hp Hns. pose proof (resolve s sv slm cs H Hp) as R. destruct Hp as (_ & _ & Hnf).
   unfold chown_gen, k_chown, win, no_setid in *. rewrite (sh_os _ _ H), (sh_admin _ _ H). cbn [ostype_eqb negb].
   rewrite andb_false_r. cbn [orb].
   destruct (klookup s sv false (follow_of slm) (abs_path cs)) as [par kind name n|par name md| |e]; cbn [walk_rel] in R.
@@ -561,17 +603,17 @@ Qed.
 
 (* ---- Chdir: both succeed, or both fail with the same errno (the implementation keeps the new working directory as a
         string - by [walk_rel] a link-free path to the node the specification keeps) ------------------------------------ *)
-Theorem step_chdir (s : fsys) (sv : sview) (cs : list str) :
-  step_hyps s sv -> path_ok s sv SlEval cs ->
-  match chdir s (sv_view sv) (abs_path cs), k_chdir s sv (abs_path cs) with
+Theorem step_chdir_p (s : fsys) (sv : sview) (p : str) :
+  step_hyps s sv -> resolved s sv SlEval p ->
+  match chdir s (sv_view sv) p, k_chdir s sv p with
   | inl r, inl e => proj_res Linux r = SErr e
   | inr _, inr _ => True
   | _, _ => False
   end.
 Proof.
-  intros H Hp. pose proof (resolve s sv SlEval cs H Hp) as R. destruct Hp as (_ & _ & Hnf & _).
+  intros H (R & Hnf).
   unfold chdir, k_chdir, win. rewrite (sh_os _ _ H). cbn [ostype_eqb]. change (follow_of SlEval) with true in R.
-  destruct (klookup s sv false true (abs_path cs)) as [par kind name n|par name md| |e]; cbn [walk_rel] in R.
+  destruct (klookup s sv false true p) as [par kind name n|par name md| |e]; cbn [walk_rel] in R.
   - destruct R as (R1 & R2 & R3 & _). rewrite R2, R1. cbn [is_file_exists negb]. unfold node_is_dir.
     destruct (get (f_heap s) n) as [[ch m|dt k i m|t m]|] eqn:Hg; cbn [negb]; try reflexivity.
     rewrite (admin_kperm s sv n 1 H) by congruence. unfold check_permission. rewrite (sh_admin _ _ H). exact I.
@@ -580,6 +622,15 @@ Proof.
   - destruct R as (R1 & _). destruct (werr_cases _ _ R1 Hnf) as (Hc & ->).
     destruct Hc as [->|[->|[->| ->]]]; reflexivity.
 Qed.
+
+Theorem step_chdir (s : fsys) (sv : sview) (cs : list str) :
+  step_hyps s sv -> path_ok s sv SlEval cs ->
+  match chdir s (sv_view sv) (abs_path cs), k_chdir s sv (abs_path cs) with
+  | inl r, inl e => proj_res Linux r = SErr e
+  | inr _, inr _ => True
+  | _, _ => False
+  end.
+Proof. intros H Hp. exact (step_chdir_p s sv (abs_path cs) H (resolved_abs _ _ _ _ H Hp)). Qed.
 
 (* ---- ReadFile / ReadDir (OpenFile with O_RDONLY, then the handle methods) --------------------------------------- *)
 Lemma open_rdonly (s : fsys) (v : view) (vi : nat) (name : str) (perm : N) :
@@ -631,7 +682,7 @@ Theorem step_read_file (s : fsys) (sv : sview) (cs : list str) :
   step_hyps s sv -> path_ok s sv SlEval cs ->
   proj_res Linux (read_file s (sv_view sv) (abs_path cs)) = go_read_file s sv (abs_path cs).
 Proof.
-  intros H Hp. pose proof (resolve s sv SlEval cs H Hp) as R. destruct Hp as (_ & _ & Hnf & _).
+  intros H Hp. pose proof (resolve s sv SlEval cs H Hp) as R. destruct Hp as (_ & _ & Hnf).
   pose proof (resolve_nosym s sv SlEval cs) as Hns.
   unfold read_file, go_read_file. rewrite (open_rdonly _ _ _ _ _ (abs_path_nonempty cs)). cbv zeta.
   unfold k_open. change (decode_flags 0) with (OF 0 false false false false). cbv iota beta zeta.
@@ -703,7 +754,7 @@ Theorem step_read_dir (s : fsys) (sv : sview) (cs : list str) :
   step_hyps s sv -> path_ok s sv SlEval cs -> ptr_valid (f_heap s) ->
   obs_sim (proj_res Linux (read_dir s (sv_view sv) (abs_path cs))) (go_read_dir s sv (abs_path cs)).
 Proof.
-  intros H Hp Hpv. pose proof (resolve s sv SlEval cs H Hp) as R. destruct Hp as (_ & _ & Hnf & _).
+  intros H Hp Hpv. pose proof (resolve s sv SlEval cs H Hp) as R. destruct Hp as (_ & _ & Hnf).
   pose proof (resolve_nosym s sv SlEval cs) as Hns.
   unfold read_dir, go_read_dir. rewrite (open_rdonly _ _ _ _ _ (abs_path_nonempty cs)). cbv zeta.
   unfold k_open. change (decode_flags 0) with (OF 0 false false false false). cbv iota beta zeta.
@@ -884,7 +935,7 @@ Section WriteFile.
   Proof.
     intros Hpm Hcase. pose proof (resolve s sv SlEval (w ++ [cl]) H Hp) as R.
     pose proof (resolve_nosym s sv SlEval (w ++ [cl])) as Hns.
-    destruct Hp0 as (Hg & _). destruct Hp as (_ & Hk1 & Hnf & _).
+    destruct Hp0 as (Hg & _). destruct Hp as (_ & Hk1 & Hnf).
     change (follow_of SlEval) with true in R, Hk1. change (precise_of SlEval) with true in R.
     pose proof (klookup_final s sv true (w ++ [cl]) Hg) as Hfin.
     pose proof (sh_admin _ _ H) as Hadm.
@@ -939,7 +990,7 @@ Section WriteFile.
   Theorem step_write_file :
     (fst (write_file s v p data perm), proj_res Linux (snd (write_file s v p data perm))) = go_write_file s sv p data perm.
   Proof.
-    destruct Hp0 as (Hg & Hk0 & _ & _). change (follow_of SlLstat) with false in Hk0.
+    destruct Hp0 as (Hg & Hk0 & _). change (follow_of SlLstat) with false in Hk0.
     destruct (klookup_pm s sv false w cl Hg Hk0) as (_ & _ & Hpm).
     apply (write_file_main _ Hpm).
     destruct (klookup s sv false false p) as [par0 k0 n0 c0|par0 n0 md0|a b c d|e0] eqn:HK0.
@@ -949,6 +1000,214 @@ Section WriteFile.
     - left. split; [symmetry; exact (klookup_err_follow s sv w cl e0 Hg HK0)|eauto].
   Qed.
 End WriteFile.
+
+(* ---- Rename of a non-directory to a name that does not exist --------------------------------------------------------- *)
+Lemma upd_upd_same (h : heap) (i : nat) (a b : node) : upd (upd h i a) i b = upd h i b.
+Proof. revert i. induction h as [|x h IH]; intros [|i]; cbn [upd]; try reflexivity. rewrite IH. reflexivity. Qed.
+
+Lemma upd_comm (h : heap) (i j : nat) (a b : node) : i <> j -> upd (upd h i a) j b = upd (upd h j b) i a.
+Proof.
+  revert i j. induction h as [|x h IH]; intros [|i] [|j] Hne; cbn [upd]; try reflexivity; try congruence.
+  rewrite IH by congruence. reflexivity.
+Qed.
+
+Lemma aremove_aset_comm (V : Type) (k k2 : str) (x : V) (m : list (str * V)) :
+  k2 <> k -> aremove str_eqb k (aset str_eqb k2 x m) = aset str_eqb k2 x (aremove str_eqb k m).
+Proof.
+  intros Hne. assert (Hkk : str_eqb k k2 = false) by (apply str_eqb_neq; congruence).
+  induction m as [|[k' v'] m IH]; cbn [aset aremove].
+  - rewrite Hkk. reflexivity.
+  - destruct (str_eqb_spec k2 k') as [<-|H2]; cbn [aremove aset].
+    + rewrite Hkk. cbn [aset]. rewrite str_eqb_refl. reflexivity.
+    + destruct (str_eqb k k') eqn:Ek; cbn [aset].
+      * exact IH.
+      * apply str_eqb_neq in H2. rewrite H2. rewrite IH. reflexivity.
+Qed.
+
+Lemma move_commute (h : heap) (op np oc : nat) (oname nname : str) cho mo chn mn :
+  get h op = Some (NDir cho mo) -> get h np = Some (NDir chn mn) -> (op = np -> nname <> oname) ->
+  remove_child (add_child h np nname oc) op oname = add_child (remove_child h op oname) np nname oc.
+Proof.
+  intros Ho Hn Hne. pose proof (wget_lt _ _ _ Ho) as Lo. pose proof (wget_lt _ _ _ Hn) as Ln.
+  destruct (Nat.eq_dec op np) as [E|E].
+  - subst np. rewrite Ho in Hn. injection Hn as <- <-.
+    unfold add_child, remove_child. rewrite Ho.
+    rewrite !wget_upd_same by assumption. rewrite !upd_upd_same.
+    rewrite aremove_aset_comm by (apply Hne; reflexivity). reflexivity.
+  - unfold add_child at 1. rewrite Hn. unfold remove_child at 1. rewrite wget_upd_other by congruence. rewrite Ho.
+    unfold remove_child. rewrite Ho. unfold add_child. rewrite wget_upd_other by congruence. rewrite Hn.
+    apply upd_comm. congruence.
+Qed.
+
+Definition source_not_dir (s : fsys) (sv : sview) (cs : list str) : Prop :=
+  forall par kind name n, klookup s sv false false (abs_path cs) = WNode par kind name n ->
+                          node_is_dir (f_heap s) n = false.
+
+Theorem step_rename_new (s : fsys) (sv : sview) (wo : list str) (clo : str) (wn : list str) (cln : str) (np : nat) (md : bool) :
+  step_hyps s sv -> path_ok s sv SlLstat (wo ++ [clo]) -> path_ok s sv SlLstat (wn ++ [cln]) ->
+  source_not_dir s sv (wo ++ [clo]) ->
+  klookup s sv false false (abs_path (wn ++ [cln])) = WNeg np cln md ->
+  let o := abs_path (wo ++ [clo]) in
+  let n := abs_path (wn ++ [cln]) in
+  (fst (rename s (sv_view sv) o n), proj_res Linux (snd (rename s (sv_view sv) o n))) = go_rename s sv o n.
+Proof.
+  intros H Hpo Hpn Hnd HKn o n.
+  pose proof (resolve s sv SlLstat (wo ++ [clo]) H Hpo) as Ro. pose proof (resolve s sv SlLstat (wn ++ [cln]) H Hpn) as Rn.
+  destruct Hpo as (Hgo & Hko & Hnfo). destruct Hpn as (Hgn & Hkn & Hnfn).
+  change (follow_of SlLstat) with false in Ro, Rn, Hko, Hkn. change (precise_of SlLstat) with true in Ro, Rn.
+  destruct (klookup_pm s sv false wo clo Hgo Hko) as (Hono & Hong & Hpmo).
+  destruct (klookup_pm s sv false wn cln Hgn Hkn) as (_ & _ & Hpmn).
+  pose proof (klookup_final s sv false (wo ++ [clo]) Hgo) as Fo.
+  pose proof (klookup_final s sv false (wn ++ [cln]) Hgn) as Fn.
+  rewrite HKn in Rn, Hpmn, Fn. cbn [walk_rel] in Rn. destruct Fn as (Fn1 & Fn2 & _).
+  destruct Rn as (N1 & N2 & N3 & N4). destruct (at_name_views _ _ _ _ _ _ (N4 eq_refl)) as (NV1 & NV2 & dn & NP & NW & NG).
+  unfold o, n, rename, go_rename, k_rename. unfold k_stat at 1. rewrite HKn, Hpmo, Hpmn. cbv beta iota zeta.
+  set (ro := search_node s (sv_view sv) (abs_path (wo ++ [clo])) SlLstat) in *.
+  set (rn := search_node s (sv_view sv) (abs_path (wn ++ [cln])) SlLstat) in *.
+  unfold source_not_dir in Hnd.
+  destruct (klookup s sv false false (abs_path (wo ++ [clo]))) as [op okind oname oc|op oname omd|a b c d|e] eqn:HKo;
+    cbn [walk_rel] in Ro.
+  - destruct (Hono _ _ _ _ eq_refl) as (-> & ->). destruct Fo as (Fo1 & Fo2 & _).
+    destruct Ro as (O1 & O2 & O3 & _ & _ & O4). destruct (O4 eq_refl) as (O5 & O6).
+    destruct (at_name_views _ _ _ _ _ _ (O6 eq_refl)) as (OV1 & _ & do & OP & OW & OG).
+    specialize (Hnd _ _ _ _ eq_refl).
+    assert (Hvo : get (f_heap s) op <> None) by (apply node_is_dir_valid; exact Fo2).
+    assert (Hvn : get (f_heap s) np <> None) by (apply node_is_dir_valid; exact Fn2).
+    rewrite O1, N1, NV2, O5, O2, N3, OV1, NV1, N2. cbn [is_file_exists is_not_exist negb andb orb].
+    rewrite !(admin_perm_on s sv _ _ H) by assumption. cbn [negb andb]. rewrite andb_false_r.
+    (* the two resolved paths differ *)
+    assert (Hdiff : str_eqb (pi_path (sr_pi ro)) (pi_path (sr_pi rn)) = false).
+    { apply str_eqb_neq. rewrite OP, NP. intros E.
+      apply abs_path_inj in E; [|apply Forall_comp_ok_of; exact OG|apply Forall_comp_ok_of; exact NG].
+      apply app_inj_tail in E as (-> & ->). rewrite OW in NW. injection NW as ->. congruence. }
+    rewrite Hdiff. cbn [orb]. rewrite Fo1, Fn1. rewrite Hnd. cbn [negb andb].
+    rewrite !(admin_may_delete s sv _ _ _ H) by assumption. rewrite Hnd.
+    rewrite (admin_kperm s sv np 3 H) by assumption.
+    destruct (node_is_dir_get _ _ Fo2) as (cho & mo & Hgo'). destruct (node_is_dir_get _ _ Fn2) as (chn & mn & Hgn').
+    assert (Hmove : remove_child (add_child (f_heap s) np cln oc) op clo
+                    = add_child (remove_child (f_heap s) op clo) np cln oc).
+    { apply (move_commute _ _ _ _ _ _ cho mo chn mn Hgo' Hgn'). intros -> ->. congruence. }
+    unfold node_is_dir in Hnd.
+    destruct (get (f_heap s) oc) as [[ch m|dt k i m|t m]|] eqn:Hgoc; try discriminate Hnd; try congruence;
+      rewrite Hmove; reflexivity.
+  - pose proof (Hong _ _ _ eq_refl) as ->. destruct Fo as (Fo1 & _). destruct Ro as (O1 & _). rewrite O1, Fo1. reflexivity.
+  - destruct Ro.
+  - destruct Ro as (O1 & _). destruct (werr_cases _ _ O1 Hnfo) as (Hc & ->).
+    destruct Hc as [Hc|[Hc|[Hc|Hc]]]; rewrite Hc; reflexivity.
+Qed.
+
+(* ---- OpenFile as a call of its own (the handle is closed at once on the specification side) ---------------------------- *)
+Lemma upd_same (h : heap) (i : nat) (x : node) : get h i = Some x -> upd h i x = h.
+Proof.
+  unfold get. revert i. induction h as [|y h IH]; intros [|i] Hg; cbn [upd nth_error] in *; try discriminate.
+  - injection Hg as ->. reflexivity.
+  - rewrite IH by exact Hg. reflexivity.
+Qed.
+
+Lemma with_heap_same (s : fsys) : with_heap s (f_heap s) = s.
+Proof. destruct s; reflexivity. Qed.
+
+(* same resulting file system; same errno, or the handle is on the node open(2) returns *)
+Definition open_sim (a : fsys * (res + handle)) (b : fsys * (N + nat)) : Prop :=
+  fst a = fst b /\
+  match snd a, snd b with
+  | inl r, inl e => exists ek, r = RFail ek /\ snd (ecode Linux ek) = e
+  | inr f, inr c => hd_node f = Some c
+  | _, _ => False
+  end.
+
+Ltac osim := split; [reflexivity|first [reflexivity | eexists; osim]].
+
+Theorem step_open_rdonly (s : fsys) (sv : sview) (vi : nat) (cs : list str) (perm : N) :
+  step_hyps s sv -> path_ok s sv SlEval cs ->
+  open_sim (open_file s (sv_view sv) vi (abs_path cs) 0 perm) (k_open s sv (abs_path cs) 0 perm).
+Proof.
+  intros H Hp. pose proof (resolve s sv SlEval cs H Hp) as R. destruct Hp as (_ & _ & Hnf).
+  pose proof (resolve_nosym s sv SlEval cs) as Hns.
+  rewrite (open_rdonly _ _ _ _ _ (abs_path_nonempty cs)). cbv zeta.
+  unfold k_open. change (decode_flags 0) with (OF 0 false false false false). cbv iota beta zeta.
+  change (negb (N.eqb (N.land (acc_mask 0 false) 2) 0)) with false. change (acc_mask 0 false) with 4%N. cbn [andb negb].
+  change (follow_of SlEval) with true in R. change (precise_of SlEval) with true in R.
+  destruct (klookup s sv false true (abs_path cs)) as [par kind name n|par name md| |e]; cbn [walk_rel] in R.
+  - destruct R as (R1 & R2 & R3 & _ & R4 & _). specialize (Hns n H eq_refl R1 R2).
+    rewrite R1, (R4 eq_refl), R2. cbn [is_file_exists is_not_exist negb andb orb].
+    destruct (get (f_heap s) n) as [[ch m|dt k i m|t m]|] eqn:Hg; [| |exfalso; exact (Hns t m eq_refl)|congruence].
+    + unfold check_permission. rewrite (sh_admin _ _ H), (admin_kperm s sv n _ H) by congruence. cbn [negb andb].
+      osim.
+    + unfold check_permission. rewrite (sh_admin _ _ H), (admin_kperm s sv n _ H) by congruence. cbn [negb andb orb].
+      rewrite (upd_same _ _ _ Hg), with_heap_same. osim.
+  - destruct R as (R1 & R2 & R3 & R4). destruct (at_name_views _ _ _ _ _ _ (R4 eq_refl)) as (_ & V2 & _).
+    rewrite R1, V2. osim.
+  - destruct R.
+  - destruct R as (R1 & R2). destruct (werr_cases _ _ R1 Hnf) as (Hc & ->).
+    destruct Hc as [Hc|[Hc|[Hc|Hc]]]; rewrite Hc in *; try osim.
+    rewrite (R2 eq_refl eq_refl). osim.
+Qed.
+
+Section OpenWct.
+  Variables (s : fsys) (sv : sview) (vi : nat) (w : list str) (cl : str) (perm : N).
+  Hypothesis H : step_hyps s sv.
+  Hypothesis Hp0 : path_ok s sv SlLstat (w ++ [cl]).
+  Hypothesis Hp : path_ok s sv SlEval (w ++ [cl]).
+  Hypothesis Hsg : no_setgid_parent_follow s sv (w ++ [cl]).
+  Notation p := (abs_path (w ++ [cl])).
+  Notation v := (sv_view sv).
+
+  Lemma open_wct_main (Kpm : wres) :
+    klookup s sv true false p = Kpm ->
+    (Kpm = klookup s sv false true p /\ exists e, Kpm = WErr e) \/ (exists par0, Kpm = WParent par0 LNorm cl false) ->
+    open_sim (open_file s v vi p WCT perm) (k_open s sv p WCT perm).
+  Proof.
+    intros Hpm Hcase. pose proof (resolve s sv SlEval (w ++ [cl]) H Hp) as R.
+    pose proof (resolve_nosym s sv SlEval (w ++ [cl])) as Hns.
+    destruct Hp0 as (Hg & _). destruct Hp as (_ & Hk1 & Hnf).
+    change (follow_of SlEval) with true in R, Hk1. change (precise_of SlEval) with true in R.
+    pose proof (klookup_final s sv true (w ++ [cl]) Hg) as Hfin.
+    pose proof (sh_admin _ _ H) as Hadm.
+    rewrite (open_wct _ _ _ _ _ (abs_path_nonempty _)). cbv zeta.
+    unfold k_open. change (decode_flags WCT) with (OF 1 true false true false).
+    cbv iota beta zeta. change (negb (N.eqb (N.land (acc_mask 1 true) 2) 0)) with true.
+    change (acc_mask 1 true) with 2%N. cbn [andb negb orb]. rewrite Hpm. unfold no_setgid_parent_follow in Hsg.
+    set (r := search_node s v p SlEval) in *.
+    destruct Hcase as [(E1 & e0 & E2)|(par0 & ->)].
+    { rewrite <- E1, E2 in R. rewrite E2. cbn [walk_rel] in R. destruct R as (R1 & R2).
+      destruct (werr_cases _ _ R1 Hnf) as (Hc & ->).
+      destruct Hc as [Hc|[Hc|[Hc|Hc]]]; rewrite Hc in *; try osim.
+      rewrite (R2 eq_refl eq_refl). osim. }
+    cbv iota.
+    destruct (klookup s sv false true p) as [par kind name n|par name md|a b c d|e] eqn:HK1; cbn [walk_rel] in R.
+    - destruct R as (R1 & R2 & R3 & _ & R4 & _). specialize (Hns n H eq_refl R1 R2).
+      rewrite R1, (R4 eq_refl), R2. cbn [is_file_exists is_not_exist negb andb orb].
+      destruct (get (f_heap s) n) as [[ch m|dt k i m|t m]|] eqn:Hgn;
+        [osim| |exfalso; exact (Hns t m eq_refl)|congruence].
+      unfold check_permission. rewrite Hadm, (admin_kperm s sv n _ H) by congruence. cbn [negb andb orb].
+      rewrite (drop_privs_admin _ _ Hadm). osim.
+    - destruct Hfin as (F1 & F2 & _). destruct R as (R1 & R2 & R3 & R4).
+      destruct (at_name_views _ _ _ _ _ _ (R4 eq_refl)) as (V1 & V2 & _).
+      rewrite R1, V2, R3, V1, F1. cbn [is_file_exists is_not_exist negb andb orb].
+      rewrite (admin_perm_on s sv par _ H) by (apply node_is_dir_valid; exact F2).
+      rewrite (admin_kperm s sv par 3 H) by (apply node_is_dir_valid; exact F2). cbn [negb].
+      unfold create_file, alloc_child, kmeta, new_meta, new_owner_gid.
+      rewrite (Hsg _ _ _ eq_refl), (sh_os _ _ H). cbn [file_mode andb]. osim.
+    - destruct R.
+    - destruct R as (R1 & R2). destruct (werr_cases _ _ R1 Hnf) as (Hc & ->).
+      destruct Hc as [Hc|[Hc|[Hc|Hc]]]; rewrite Hc in *; try osim.
+      rewrite (R2 eq_refl eq_refl). osim.
+  Qed.
+
+  Theorem step_open_wct : open_sim (open_file s v vi p WCT perm) (k_open s sv p WCT perm).
+  Proof.
+    destruct Hp0 as (Hg & Hk0 & _). change (follow_of SlLstat) with false in Hk0.
+    destruct (klookup_pm s sv false w cl Hg Hk0) as (_ & _ & Hpm).
+    apply (open_wct_main _ Hpm).
+    destruct (klookup s sv false false p) as [par0 k0 n0 c0|par0 n0 md0|a b c d|e0] eqn:HK0.
+    - right. eauto.
+    - right. eauto.
+    - exfalso. exact (klookup_not_parent _ _ _ _ _ _ _ _ HK0).
+    - left. split; [symmetry; exact (klookup_err_follow s sv w cl e0 Hg HK0)|eauto].
+  Qed.
+End OpenWct.
+
 
 (* ---- the step theorem at the level of worlds --------------------------------------------------------------------- *)
 (* the specification state [sw] abstracts the world [w] seen through view [vi]: same file system, same view
@@ -975,6 +1234,11 @@ Definition covered (vi : nat) (sw : sworld) (c : call) : Prop :=
   | CSymlink vi' t p =>
       vi' = vi /\ t = clean Linux t /\
       exists w cl, p = abs_path (w ++ [cl]) /\ path_ok s sv SlLstat (w ++ [cl]) /\ no_setgid_parent s sv (w ++ [cl])
+  | COpenFile vi' p flag _ =>
+      vi' = vi /\
+      ((flag = 0%N /\ exists cs, p = abs_path cs /\ path_ok s sv SlEval cs)
+       \/ (flag = WCT /\ exists w cl, p = abs_path (w ++ [cl]) /\ path_ok s sv SlLstat (w ++ [cl])
+                                       /\ path_ok s sv SlEval (w ++ [cl]) /\ no_setgid_parent_follow s sv (w ++ [cl])))
   | CRemove vi' p =>
       vi' = vi /\ sym_single (f_heap s) /\ exists w cl, p = abs_path (w ++ [cl]) /\ path_ok s sv SlLstat (w ++ [cl])
   | CLink vi' o p =>
@@ -984,6 +1248,11 @@ Definition covered (vi : nat) (sw : sworld) (c : call) : Prop :=
   | CLchown vi' p _ _ => vi' = vi /\ exists cs, p = abs_path cs /\ path_ok s sv SlLstat cs /\ no_setid s sv false cs
   | CReadFile vi' p => vi' = vi /\ exists cs, p = abs_path cs /\ path_ok s sv SlEval cs
   | CReadDir vi' p => vi' = vi /\ ptr_valid (f_heap s) /\ exists cs, p = abs_path cs /\ path_ok s sv SlEval cs
+  | CRename vi' o p =>
+      vi' = vi /\ exists wo clo wn cln np md,
+        o = abs_path (wo ++ [clo]) /\ p = abs_path (wn ++ [cln]) /\ path_ok s sv SlLstat (wo ++ [clo])
+        /\ path_ok s sv SlLstat (wn ++ [cln]) /\ source_not_dir s sv (wo ++ [clo])
+        /\ klookup s sv false false (abs_path (wn ++ [cln])) = WNeg np cln md
   | CWriteFile vi' p _ _ =>
       vi' = vi /\ exists w cl, p = abs_path (w ++ [cl]) /\ path_ok s sv SlLstat (w ++ [cl])
                                /\ path_ok s sv SlEval (w ++ [cl]) /\ no_setgid_parent_follow s sv (w ++ [cl])
@@ -1018,6 +1287,8 @@ Section StepEqns.
   Lemma wstep_mkdir p perm : wstep w (CMkdir vi p perm) = lift w (mkdir (w_fs w) v p perm).
   Proof. unfold wstep, on_view. rewrite Hv. reflexivity. Qed.
   Lemma wstep_remove p : wstep w (CRemove vi p) = lift w (remove (w_fs w) v p).
+  Proof. unfold wstep, on_view. rewrite Hv. reflexivity. Qed.
+  Lemma wstep_rename o p : wstep w (CRename vi o p) = lift w (rename (w_fs w) v o p).
   Proof. unfold wstep, on_view. rewrite Hv. reflexivity. Qed.
   Lemma wstep_link o p : wstep w (CLink vi o p) = lift w (link (w_fs w) v o p).
   Proof. unfold wstep, on_view. rewrite Hv. reflexivity. Qed.
@@ -1056,6 +1327,9 @@ Lemma spec_mkdir sw vi p perm : spec_step true sw (CMkdir vi p perm)
 Proof. reflexivity. Qed.
 Lemma spec_remove sw vi p : spec_step true sw (CRemove vi p)
   = ({| sw_fs := fst (go_remove (sw_fs sw) (sw_sv sw) p); sw_sv := sw_sv sw |}, snd (go_remove (sw_fs sw) (sw_sv sw) p)).
+Proof. reflexivity. Qed.
+Lemma spec_rename sw vi o p : spec_step true sw (CRename vi o p)
+  = ({| sw_fs := fst (go_rename (sw_fs sw) (sw_sv sw) o p); sw_sv := sw_sv sw |}, snd (go_rename (sw_fs sw) (sw_sv sw) o p)).
 Proof. reflexivity. Qed.
 Lemma spec_link sw vi o p : spec_step true sw (CLink vi o p)
   = ({| sw_fs := fst (k_link true (sw_fs sw) (sw_sv sw) o p); sw_sv := sw_sv sw |}, snd (k_link true (sw_fs sw) (sw_sv sw) o p)).
@@ -1111,6 +1385,21 @@ Lemma world_of_ro (w : world) (vi : nat) (sw : sworld) (c : call) (r : res) (g :
   /\ absw (fst (impl_step_proj w c)) vi (fst (spec_step true sw c)).
 Proof. intros Ha Ei Es E. rewrite Ei, Es. cbn [fst snd]. split; [exact E|exact Ha]. Qed.
 
+(* at the level of worlds: the implementation's world gets a handle, which the abstraction does not look at *)
+Lemma world_open (w : world) (vi : nat) (sw : sworld) (p : str) (flag perm : N) :
+  absw w vi sw ->
+  open_sim (open_file (w_fs w) (sv_view (sw_sv sw)) vi p flag perm) (k_open (sw_fs sw) (sw_sv sw) p flag perm) ->
+  obs_sim (snd (impl_step_proj w (COpenFile vi p flag perm))) (snd (spec_step true sw (COpenFile vi p flag perm)))
+  /\ absw (fst (impl_step_proj w (COpenFile vi p flag perm))) vi (fst (spec_step true sw (COpenFile vi p flag perm))).
+Proof.
+  intros (Hfs & Hv) Hs. unfold impl_step_proj, spec_step, wstep, on_view. rewrite Hv.
+  destruct (open_file (w_fs w) (sv_view (sw_sv sw)) vi p flag perm) as [s1 [r|f]];
+    destruct (k_open (sw_fs sw) (sw_sv sw) p flag perm) as [s1' [e|c]];
+    destruct Hs as (E1 & E2); cbn [fst snd] in *; try contradiction; subst s1'.
+  - destruct E2 as (ek & -> & <-). split; [apply obs_sim_refl|]. split; [reflexivity|exact Hv].
+  - split; [apply obs_sim_refl|]. split; [reflexivity|exact Hv].
+Qed.
+
 Theorem step_world (w : world) (vi : nat) (sw : sworld) (c : call) :
   absw w vi sw -> covered vi sw c ->
   obs_sim (snd (impl_step_proj w c)) (snd (spec_step true sw c))
@@ -1124,12 +1413,23 @@ Proof.
     + apply (impl_lift w _ _ (wstep_mkdir w vi _ Hv p perm)); [left; discriminate|exact I].
     + apply spec_mkdir.
     + rewrite <- Hfs, Ep. exact (step_mkdir (sw_fs sw) (sw_sv sw) ww cl perm H Hp Hsg).
+  - (* OpenFile *)
+    destruct Hc as (-> & [(-> & cs & Ep & Hp)|(-> & ww & cl & Ep & Hp0 & Hp & Hsg)]); apply (world_open w vi sw _ _ _ Ha);
+      rewrite <- Hfs, Ep.
+    + exact (step_open_rdonly (sw_fs sw) (sw_sv sw) vi cs perm H Hp).
+    + exact (step_open_wct (sw_fs sw) (sw_sv sw) vi ww cl perm H Hp0 Hp Hsg).
   - (* Remove *)
     destruct Hc as (-> & Hss & ww & cl & Ep & Hp).
     apply (world_of_lift w vi sw _ (remove (w_fs w) (sv_view (sw_sv sw)) p) (go_remove (sw_fs sw) (sw_sv sw) p) Ha).
     + apply (impl_lift w _ _ (wstep_remove w vi _ Hv p)); [left; discriminate|exact I].
     + apply spec_remove.
     + rewrite <- Hfs, Ep. exact (step_remove (sw_fs sw) (sw_sv sw) ww cl H Hp Hss).
+  - (* Rename *)
+    destruct Hc as (-> & wo & clo & wn & cln & np & md & Eo & Ep & Hpo & Hpn & Hnd & HKn).
+    apply (world_of_lift w vi sw _ (rename (w_fs w) (sv_view (sw_sv sw)) o n) (go_rename (sw_fs sw) (sw_sv sw) o n) Ha).
+    + apply (impl_lift w _ _ (wstep_rename w vi _ Hv o n)); [left; discriminate|exact I].
+    + apply spec_rename.
+    + rewrite <- Hfs, Eo, Ep. exact (step_rename_new (sw_fs sw) (sw_sv sw) wo clo wn cln np md H Hpo Hpn Hnd HKn).
   - (* Link *)
     destruct Hc as (-> & co & ww & cl & Eo & Ep & Hpo & Hp & Hns).
     apply (world_of_lift w vi sw _ (link (w_fs w) (sv_view (sw_sv sw)) o n) (k_link true (sw_fs sw) (sw_sv sw) o n) Ha).
@@ -1247,6 +1547,44 @@ Proof.
     split; [constructor; assumption|exact I2].
 Qed.
 
+(* ---- the calls whose proof only needs a resolved path: any path form, in particular clean RELATIVE paths ------------------ *)
+Lemma resolved_rel (s : fsys) (sv : sview) (slm : slmode) (bs : list str) (x : str) :
+  step_hyps s sv ->
+  v_cwd (sv_view sv) = abs_path bs -> Forall good_comp bs ->
+  dwalk (f_heap s) (v_user (sv_view sv)) (v_root (sv_view sv)) bs = Some (sv_cwd sv) ->
+  is_abs Linux (clean Linux x) = false ->
+  klookup s sv false (follow_of slm) (clean Linux x) <> WErr EFUEL ->
+  sr_err (search_node s (sv_view sv) (clean Linux x) slm) <> EFuel ->
+  resolved s sv slm (clean Linux x).
+Proof.
+  intros H Hcwd Hbs Hw Hrel Hk Hnf. split; [|exact Hnf].
+  apply (sym_bridge_lookup_rel s sv slm bs x (sh_os _ _ H) (sh_wf _ _ H) (sh_lc _ _ H) (sh_root _ _ H)); auto.
+  apply (admin_kperm s sv _ 1 H). apply node_is_dir_valid. exact (sh_root _ _ H).
+Qed.
+
+Theorem steps_resolved (s : fsys) (sv : sview) (p : str) :
+  step_hyps s sv ->
+  (forall slm, resolved s sv slm p ->
+     stat_sim (proj_res Linux (stat_gen slm s (sv_view sv) p)) (k_stat (follow_of slm) s sv p))
+  /\ (resolved s sv SlLstat p -> proj_res Linux (readlink s (sv_view sv) p) = k_readlink s sv p)
+  /\ (resolved s sv SlEval p -> proj_res Linux (chtimes s (sv_view sv) p) = k_utimes s sv p)
+  /\ (forall mode, resolved s sv SlEval p ->
+        (fst (chmod s (sv_view sv) p mode), proj_res Linux (snd (chmod s (sv_view sv) p mode))) = k_chmod s sv p mode)
+  /\ (forall size, resolved s sv SlEval p ->
+        (fst (truncate s (sv_view sv) p size), proj_res Linux (snd (truncate s (sv_view sv) p size)))
+        = k_truncate s sv p size)
+  /\ (resolved s sv SlEval p ->
+        match chdir s (sv_view sv) p, k_chdir s sv p with
+        | inl r, inl e => proj_res Linux r = SErr e
+        | inr _, inr _ => True
+        | _, _ => False
+        end).
+Proof.
+  intros H. split; [intros slm; apply step_stat_p; exact H|]. split; [apply step_readlink_p; exact H|].
+  split; [apply step_chtimes_p; exact H|]. split; [intros mode; apply step_chmod_p; exact H|].
+  split; [intros size; apply step_truncate_p; exact H|]. apply step_chdir_p; exact H.
+Qed.
+
 (* ---- non-vacuity: a covered history on the example tree of WalkSym.v ------------------------------------------------ *)
 Module StepExamples.
   Import WalkSymExamples WalkSymNonVacuity.
@@ -1262,10 +1600,7 @@ Module StepExamples.
   Example tree_step_hyps : step_hyps tree_fs (sv_of adminv).
   Proof. split; [reflexivity|reflexivity|exact tree_wf|exact tree_links_clean|reflexivity]. Qed.
 
-  Ltac path_ok_tac :=
-    split; [good_tac|split; [vm_compute; discriminate|split; [vm_compute; discriminate|]]];
-    let Hs := fresh "Hs" in let He := fresh "He" in
-    intros (Hs & He & _); first [discriminate Hs | vm_compute in He; discriminate He].
+  Ltac path_ok_tac := split; [good_tac|split; vm_compute; discriminate].
 
   (* Lstat of a link to ".."; Stat through an absolute link; Readlink; Mkdir below a directory reached through
      "../../d"; Remove of a dangling link *)
